@@ -32,7 +32,15 @@ type Scenario struct {
 type SimOpts struct {
 	MaxReq                 int
 	Faults, Mods, Shutdown bool
+	Connect                string // none | blind | mitm
 	N, Depth               int
+}
+
+func cm(s string) string {
+	if s == "" {
+		return "none"
+	}
+	return s
 }
 
 func tf(b bool) string {
@@ -43,8 +51,12 @@ func tf(b bool) string {
 }
 
 // ModelCheck runs the exhaustive configuration and records its size.
-func ModelCheck(c *core.Ctx, name string, maxReq int, faults, mods, shutdown bool) bool {
-	cfg := fmt.Sprintf("SPECIFICATION Spec\nCONSTANTS\n  MaxReq = %d\n  Faults = %s\n  Mods = %s\n  Shutdown = %s\n  IgnoreWriteError = FALSE\n"+
+func ModelCheck(c *core.Ctx, name string, maxReq int, faults, mods, shutdown bool, connect ...string) bool {
+	mode := "none"
+	if len(connect) > 0 {
+		mode = connect[0]
+	}
+	cfg := fmt.Sprintf("SPECIFICATION Spec\nCONSTANTS\n  MaxReq = %d\n  Faults = %s\n  Mods = %s\n  Shutdown = %s\n  ConnectMode = \""+mode+"\"\n  IgnoreWriteError = FALSE\n"+
 		"INVARIANTS OneToOneInOrder OriginInOrder CloseAfter NothingAfterEOF CloseHonoured NoDesync ModsOnce ReqModBeforeUpstream SkipMeansNoContact WarnSurfaces NoCtxAtRest NoTouchAfterHijack\nPROPERTIES KeepAlive\n",
 		maxReq, tf(faults), tf(mods), tf(shutdown))
 	os.WriteFile(filepath.Join(c.Work, name+".cfg"), []byte(cfg), 0o644)
@@ -59,7 +71,7 @@ func ModelCheck(c *core.Ctx, name string, maxReq int, faults, mods, shutdown boo
 
 // DeviationCaught checks that the IgnoreWriteError deviation violates NoDesync (non-vacuity).
 func DeviationCaught(c *core.Ctx) bool {
-	cfg := "SPECIFICATION Spec\nCONSTANTS\n  MaxReq = 2\n  Faults = TRUE\n  Mods = FALSE\n  Shutdown = FALSE\n  IgnoreWriteError = TRUE\nINVARIANTS NoDesync\n"
+	cfg := "SPECIFICATION Spec\nCONSTANTS\n  MaxReq = 2\n  Faults = TRUE\n  Mods = FALSE\n  Shutdown = FALSE\n  ConnectMode = \"none\"\n  IgnoreWriteError = TRUE\nINVARIANTS NoDesync\n"
 	os.WriteFile(filepath.Join(c.Work, "h1_dev.cfg"), []byte(cfg), 0o644)
 	res, err := core.RunTLC(c.Work, core.TLCOpts{Module: "Http1Conn", Cfg: "h1_dev.cfg", Workers: 4, Timeout: 5 * time.Minute})
 	if err != nil || res.Infra() {
@@ -76,8 +88,8 @@ func DeviationCaught(c *core.Ctx) bool {
 
 // Simulate asks TLC for random behaviours of Http1Conn.
 func Simulate(c *core.Ctx, name string, o SimOpts) ([][]core.Step, error) {
-	cfg := fmt.Sprintf("SPECIFICATION Spec\nCONSTANTS\n  MaxReq = %d\n  Faults = %s\n  Mods = %s\n  Shutdown = %s\n  IgnoreWriteError = FALSE\n",
-		o.MaxReq, tf(o.Faults), tf(o.Mods), tf(o.Shutdown))
+	cfg := fmt.Sprintf("SPECIFICATION Spec\nCONSTANTS\n  MaxReq = %d\n  Faults = %s\n  Mods = %s\n  Shutdown = %s\n  ConnectMode = \"%s\"\n  IgnoreWriteError = FALSE\n",
+		o.MaxReq, tf(o.Faults), tf(o.Mods), tf(o.Shutdown), cm(o.Connect))
 	os.WriteFile(filepath.Join(c.Work, name+".cfg"), []byte(cfg), 0o644)
 	base := filepath.Join(c.Work, name+"_sim")
 	res, err := core.RunTLC(c.Work, core.TLCOpts{Module: "Http1Conn", Cfg: name + ".cfg", Workers: 1, Timeout: 10 * time.Minute,
@@ -105,6 +117,7 @@ func Simulate(c *core.Ctx, name string, o SimOpts) ([][]core.Step, error) {
 // EnvOf extracts the environment's choices from a behaviour.
 type Env struct {
 	Close   []bool   // per request
+	Connect []bool   // per request: it is a CONNECT
 	Origin  []string // ok | okclose | refuse | reached502 | trunc   ("" = never reached)
 	RqB     []string
 	RsB     []string
@@ -129,6 +142,7 @@ func EnvOf(steps []core.Step) Env {
 		switch st.Action {
 		case "ClientSend":
 			e.Close = append(e.Close, st.Args[0].B)
+			e.Connect = append(e.Connect, len(st.Args) > 1 && st.Args[1].B)
 			if recv > 0 {
 				e.Sched = append(e.Sched, ep.SchedOp{Op: "wait", I: recv})
 			}
@@ -161,6 +175,13 @@ func EnvOf(steps []core.Step) Env {
 		case "RoundTripReached":
 			set(&e.Origin, lastOrigin(st), "reached502")
 			key = append(key, "o502")
+		case "ConnectDial":
+			k := "dialok"
+			if !st.Args[0].B {
+				k = "dialfail"
+			}
+			set(&e.Origin, 1, k)
+			key = append(key, k)
 		case "CloseCalled":
 			e.CloseAt = len(e.Sched)
 			key = append(key, "X")
@@ -305,6 +326,10 @@ func Concretise(env Env, rng *rand.Rand, originAddr string, thorough bool) *Scen
 		if env.Close[i] && rng.Intn(3) == 0 {
 			req.Version = "HTTP/1.0"
 		}
+		if strings.HasPrefix(e.RqB, "hijack") || strings.HasPrefix(e.RsB, "hijack") {
+			// whatever follows the request head on a hijacked connection is the hijacker's business
+			m, req.Method = "GET", "GET"
+		}
 		if m == "POST" || m == "PUT" || m == "BREW" || (m == "DELETE" && rng.Intn(2) == 0) {
 			n := sizes[rng.Intn(len(sizes))]
 			if thorough && rng.Intn(6) == 0 {
@@ -420,10 +445,14 @@ type Rejection struct {
 
 // Validate checks the recorded file scenario by scenario: on a rejection the offending
 // scenario is cut out and validation resumes on the rest.
-func Validate(c *core.Ctx, rec *core.Recorder, results []*Result, mods bool, name string) []Rejection {
+func Validate(c *core.Ctx, rec *core.Recorder, results []*Result, mods bool, name string, connect ...string) []Rejection {
+	mode := "none"
+	if len(connect) > 0 {
+		mode = connect[0]
+	}
 	var rej []Rejection
 	cfgName := "Http1ConnTrace_" + name + ".cfg"
-	cfg := fmt.Sprintf("SPECIFICATION TSpec\nCONSTANTS\n  MaxReq = 12\n  Faults = TRUE\n  Mods = %s\n  Shutdown = TRUE\n  IgnoreWriteError = FALSE\n"+
+	cfg := fmt.Sprintf("SPECIFICATION TSpec\nCONSTANTS\n  MaxReq = 12\n  Faults = TRUE\n  Mods = %s\n  Shutdown = TRUE\n  ConnectMode = \""+mode+"\"\n  IgnoreWriteError = FALSE\n"+
 		"INVARIANTS NotAccepted OneToOneInOrder CloseAfter NothingAfterEOF NoDesync ModsOnce ReqModBeforeUpstream SkipMeansNoContact\nCONSTRAINT HW\nPOSTCONDITION PrintHW\nCHECK_DEADLOCK FALSE\n", tf(mods))
 	os.WriteFile(filepath.Join(c.Work, cfgName), []byte(cfg), 0o644)
 	lines := strings.Split(strings.TrimRight(string(rec.Bytes()), "\n"), "\n")
